@@ -59,11 +59,17 @@ def returns(paths):
     return [p for p in paths if p.outcome == "return"]
 
 
-def only(paths, what):
+def only(paths, what, ctx=None, rule=None):
+    """The single result of a function the property treats as one formula.  Several partitions that return the same
+    term are one result.  With `ctx` and `rule` given, a partition that returns something *else* is reported as a
+    violation of `rule` (the property speaks about every input of the documented range; a branch that answers part of
+    that range with another expression - an early return, a fast path, a fallback - changes what is computed there) and
+    the analysis continues with the general formula (the result with the largest term).  Not reported: a partition
+    selected by `x == c` tests under which its value equals the general formula (a shortcut for a special point), and a
+    partition selected by `parameter <= c` / `< c` with c <= 0 (outside the positive domain declared in POSITIVE)."""
     r = returns(paths)
     if len(r) == 1:
         return r[0]
-    # several partitions that all return the same term are one result
     vals = {}
     for p in r:
         v = p.value
@@ -71,7 +77,57 @@ def only(paths, what):
         vals.setdefault(k, p)
     if len(vals) == 1:
         return next(iter(vals.values()))
-    raise AnalysisError(f"{what}: expected one result, found {len(vals)} different ones over {len(r)} returning trace partitions")
+    if ctx is None or rule is None or not vals:
+        raise AnalysisError(f"{what}: expected one result, found {len(vals)} different ones over {len(r)} returning trace partitions")
+
+    def size(p):
+        return sum(1 for _ in nf.atoms(p.value.nf)) if isinstance(p.value, Num) else -1
+
+    main = max(vals.values(), key=size)
+    main_keys = {(k, c) for k, c, _d in main.decisions}
+    for p in vals.values():
+        if p is main:
+            continue
+        extra = [(k, c, d) for k, c, d in p.decisions if (k, c) not in main_keys]
+        tagtxt = ", ".join(("" if c else "not ") + d[:70] for _k, c, d in extra) or "other partition"
+        if isinstance(p.value, Num) and isinstance(main.value, Num) and extra:
+            # special point: every selecting test is an equality x == c (c free of x) under which both agree
+            sub = {}
+            special = True
+            for k, c, _d in extra:
+                if k[0] == "eq" and c:
+                    d = nf.unkey(k[1])
+                    syms = [s_ for s_ in nf.symbols(d) if nf.is_const(nf.sub(nf.diff(d, s_), nf.ONE)) or nf.is_const(nf.add(nf.diff(d, s_), nf.ONE))] if hasattr(nf, "diff") else []
+                    if syms:
+                        s_ = sorted(syms)[0]
+                        coef = nf.diff(d, s_)
+                        rest = nf.sub(d, nf.mul(coef, nf.sym(s_)))
+                        sub[s_] = nf.neg(nf.div(rest, coef))
+                        continue
+                special = False
+                break
+            if special and sub:
+                try:
+                    if nf.is_zero(nf.sub(nf.subst_sym(main.value.nf, sub), nf.subst_sym(p.value.nf, sub))):
+                        continue
+                except Exception:  # noqa: BLE001 - substitution may divide by zero at the special point
+                    pass
+            # outside the positive domain
+            outside = False
+            for k, c, _d in extra:
+                if k[0] in ("ge", "gt") and not c:
+                    d = nf.unkey(k[1])  # decision is  d >= 0 / d > 0  with d = lhs - rhs; taken False: lhs < rhs or lhs <= rhs
+                    syms = sorted(nf.symbols(d))
+                    if len(syms) == 1 and nf.is_const(nf.sub(d, nf.sym(syms[0]))) and nf.cval(nf.sub(d, nf.sym(syms[0]))) >= 0:
+                        outside = True
+            if outside:
+                continue
+        ctx.bad(
+            rule, f"{what}:another result [{tagtxt}]", what,
+            "one formula answers every input of the documented range: no partition of the inputs returns a different expression",
+            signature="alternative result " + tagtxt[:80], selected_by=tagtxt, returns=nf.show(p.value.nf, 200) if isinstance(p.value, Num) else repr(p.value)[:200],
+        )
+    return main
 
 
 def each(paths, what):
@@ -388,3 +444,68 @@ def check_errstate(ctx, rule, module_names):
                         bad.append(f"line {node.lineno}: {_ast.unparse(node)[:60]}")
         ctx.check(not bad, rule, f"{mn}:floating-point error state", m.relpath, "no floating-point condition (underflow, overflow, invalid, divide) is set to raise inside the library", signature="errstate raise", sites=bad)
     return n
+
+
+SHAPE_FNS = {"ndim", "size", "shape", "len", "isscalar"}
+
+
+def array_safe(ctx, qualname, par, opaque=()):
+    """Is it sound to hand a whole array to parameter `par` of the function?  Explores the function; on every path that
+    is not selected by an explicit scalar dispatch (np.ndim(par) == 0, np.isscalar(par), np.size(par) == 1) no decision
+    (if / while / and / or / conditional expression) may depend on `par`: such a test is either an error for arrays or -
+    wrapped in np.all / np.any - one decision taken for all elements.  Returns (ok, [offending decision descriptions])."""
+    import re
+
+    from .. import nf as _nf
+
+    it = interp(ctx, array_mode=True, opaque=set(opaque))  # np.ndim(x) != 0 is decided as "array" by the policy
+    bad = []
+
+    def strip_shape(p):
+        def f(atom):
+            if atom[0] == "fn" and atom[1] in SHAPE_FNS:
+                return _nf.const(0)
+            return None
+
+        return _nf.subst(p, f)
+
+    def shape_term(key):
+        """the decision is  shape_fn(par) <op> const"""
+        if key[0] not in ("eq", "ge", "gt"):
+            return None
+        p = _nf.unkey(key[1])
+        fa = [a for a in _nf.atoms(p) if a[0] == "fn" and a[1] in SHAPE_FNS]
+        if fa and not _nf.depends(strip_shape(p), par) and _nf.depends(p, par):
+            return fa[0][1], p
+        return None
+
+    for path in it.run_function(qualname):
+        scalar = False
+        deps = []
+        for key, choice, descr in path.decisions:
+            if key[0] == "exc":
+                continue
+            if key[0] in ("eq", "ge", "gt", "cmp"):
+                st = shape_term(key)
+                if st is not None:
+                    name, p = st
+                    rest = _nf.sub(p, _nf.fn(name, _nf.sym(par)))
+                    if key[0] == "eq" and _nf.is_const(rest) and ((name == "ndim" and _nf.cval(rest) == 0) or (name in ("size", "len") and _nf.cval(rest) == -1)) and choice:
+                        scalar = True
+                    continue
+                p = _nf.unkey(key[1]) if key[0] != "cmp" else _nf.add(_nf.unkey(key[2]), _nf.unkey(key[3]))
+                if _nf.depends(strip_shape(p), par):
+                    deps.append(descr)
+            elif key[0] == "opaque":
+                txt = str(key[1])
+                if re.fullmatch(r"isscalar\(%s\)" % re.escape(par), txt.strip()):
+                    scalar = scalar or choice
+                    continue
+                if re.match(r"isinstance\(%s, " % re.escape(par), txt.strip()):
+                    continue  # a test of the argument's type, not of its values
+                t2 = re.sub(r"\b(?:%s)\([^()]*\)" % "|".join(SHAPE_FNS), "0", txt)
+                if re.search(r"(?<![\w.])%s(?![\w])" % re.escape(par), t2):
+                    deps.append(descr)
+        if not scalar:
+            bad += [d for d in deps if d not in bad]
+    return not bad, bad
